@@ -226,6 +226,9 @@ func runC01(c *Check, a *Analysis) {
 	c.Rule("R-SEQ-WRITERS", "Context.Seq is stored only from a header's GetSeq(), from another Context.Seq, or from the key registered in Conn.pending", 4)
 	for _, s := range p.storesToField("Context", "Seq") {
 		st := s.Instr.(*ssa.Store)
+		if isZeroValue(st.Val) && s.Fn.Name() == "Reset" && recvName(s.Fn) == "Context" {
+			continue // the reset method clearing the field (`*ctx = Context{}` written field by field)
+		}
 		ok := true
 		why := ""
 		for _, o := range p.origins(st.Val) {
